@@ -48,7 +48,7 @@ func init() {
 			"the node signs and inserts itself into the set and the outgoing list before forwarding; the forward loop skips every peer in the set and runs under the peer-table read lock; origin processes start with a list containing self. "+
 			"Delivery to every node, exactly-once and termination over all delivery orders and topologies are model-checking questions and are NOT decided.",
 		runC11)
-	register("C12", []string{"./gossip"},
+	register("C12", []string{"./gossip", "./wallet"},
 		"Structural necessary conditions of unforgeable gossiper lists: an entry enters the verified set only behind the success edge of Verify(address‖item-hash, signature, digest, address) with key, message address and verification address being the same path and the hash being the caller's; "+
 			"call sites bind that hash to the item actually processed and forwarded; the raw list of a message is used only as the argument of verifyGossipers; every skip-self / skip-peer decision is a lookup in a map originating from verifyGossipers or from the node's own freshly signed entry.",
 		runC12)
@@ -333,6 +333,49 @@ func runC11(w *World, r *Report) {
 			at = lineOf(w, where)
 		}
 		r.check(unaccounted == 0, "exits-accounted", row.handler, at, "the handler refuses an item only for one of the protocol's reasons", fmt.Sprintf("%d returns are reachable before any processing without crossing a known rejection (malformed, step failed, seen, listed)", unaccounted))
+	}
+
+	// the awaiting cache is a convenience of this node, not a gate of the protocol: a transaction the node already holds
+	// (its own notary proposed it: the cache is filled, the seen-marks are not) still has to be signed and carried on
+	r.rule("cache-failure-does-not-stop-forwarding", "in GossipTrx the forwarding of the transaction is reachable from the failure edge of SaveAwaitedTransaction: what gates forwarding is the issuer signature, the seen-marks and the gossiper set — not whether this node's awaiting cache took the transaction (ErrTrxAlreadyExists is an ordinary answer)", 1)
+	for _, row := range gossipRows {
+		if row.handler != "GossipTrx" {
+			continue
+		}
+		f := w.fx(r, "gossip", "gossiper", row.handler)
+		if f == nil {
+			continue
+		}
+		fn := f.fn
+		for _, d := range deepCalls(fn, bySuffix(").SaveAwaitedTransaction"), deepDepth) {
+			fes := failErrNonNil(d.c)
+			if len(fes) == 0 {
+				r.ok("cache-failure-does-not-stop-forwarding", row.handler+"/SaveAwaitedTransaction", lineOf(w, d.c), "the result of the cache save decides nothing")
+				continue
+			}
+			ok := true
+			for _, fe := range fes {
+				reached := false
+				walkFrom(nil, fe.To(), nil, func(x ssa.Instruction) bool {
+					if c, isCall := x.(ssa.CallInstruction); isCall {
+						if strings.HasSuffix(calleeName(c), "."+row.forward) {
+							reached = true
+							return true
+						}
+						if h := samePkgHelper(x.Parent(), c); h != nil && len(deepCalls(h, bySuffix("."+row.forward), 1)) > 0 {
+							reached = true
+							return true
+						}
+					}
+					return false
+				})
+				if !reached {
+					ok = false
+				}
+			}
+			r.check(ok, "cache-failure-does-not-stop-forwarding", row.handler+"/SaveAwaitedTransaction", lineOf(w, d.c), "a transaction the awaiting cache did not take is forwarded all the same",
+				"no call of "+row.forward+" is reachable from the failure edge of SaveAwaitedTransaction: a transaction this node already holds (proposed at its own notary) is not carried on, and the seen-mark set before drops every later copy")
+		}
 	}
 
 	// sendToAccountant summary
@@ -904,6 +947,8 @@ func isPointerLike(t types.Type) bool {
 
 func runC12(w *World, r *Report) {
 	r.NotDecided = []string{"that an honest path exists (topology)", "delivery under all relay positions and orders (model checking)"}
+	// the verified set is keyed by address: one wallet must have one address
+	oneAddressPerKey(w, r, "one-address-per-key")
 	r.rule("entry-verified", "verifyGossipers: m[member.Address] = member only behind Verify(createGossiperMessageToSign(member.Address, hash), member.Signature, digest(member.Digest), member.Address) == nil", 2)
 	if f := w.fx(r, "gossip", "gossiper", "verifyGossipers"); f != nil {
 		fn := f.fn
